@@ -14,8 +14,8 @@ From SC Require Import Lib.Prelude Lib.Int Lib.Host Model.Gates Model.GatesSpec
 (* ---------------------------------------------------------------------------------- *)
 (* Pause.  In ANY state with the flag set, every entry point declared pausable fails and leaves
    the state untouched - for every argument and every authorisation set.  [is_paus]: KPaus =
-   examples/fungible-pausable (transfer, transfer_from, burn, burn_from, mint carry
-   #[when_not_paused]); KPausLib = the library functions and both attribute macros of
+   examples/fungible-pausable (transfer - also with a muxed receiver -, transfer_from, burn,
+   burn_from, mint carry #[when_not_paused]); KPausEx = examples/pausable (increment); KPausLib = the library functions and both attribute macros of
    packages/macros/src/pausable.rs driven directly (the entry point under #[when_not_paused]). *)
 Theorem C16_paused_blocks_all : forall c s cl,
   is_paus (knd c) = true -> paused s = true -> pausable_op (fst cl) = true ->
@@ -71,6 +71,14 @@ Theorem C16_block : forall c s cl s',
   forall a, In a (vetted (fst cl)) -> blocked s a = false.
 Proof. exact block_sound. Qed.
 Print Assumptions C16_block.
+
+(* A muxed receiver (to = MuxedAddress(address, id)) is the plain transfer to the underlying address,
+   for every contract and state: C16_allow / C16_block vet that address. *)
+Theorem C16_muxed_receiver : forall c s f t i a au,
+  exec c s (TransferMux f t i a, au) = exec c s (Transfer f t a, au) /\
+  vetted (TransferMux f t i a) = [f; t] /\ pausable_op (TransferMux f t i a) = true.
+Proof. exact muxed_receiver. Qed.
+Print Assumptions C16_muxed_receiver.
 
 (* The same over every call sequence from deployment, in terms of what happened: a gated entry
    point succeeds only if the LAST successful list change of every vetted party was an allow_user
@@ -190,13 +198,15 @@ Proof. exact cap_invariant_lib. Qed.
 Print Assumptions C16_cap_invariant_lib.
 
 (* ---------------------------------------------------------------------------------- *)
-(* Migration, over every call sequence from deployment (derive(UpgradeableMigratable)): migrate
+(* Migration, over every call sequence from deployment - KUpgV2: derive(UpgradeableMigratable)
+   used directly; KUpgV1: examples/upgradeable/v1 (derive(Upgradeable)) whose successor after the
+   first upgrade is examples/upgradeable/v2 - : migrate
    succeeds exactly when the operator is the owner, has authorised, and an upgrade succeeded since
    the last successful migration - hence exactly once after each upgrade (or run of upgrades) and
    never without one.  [armed_after c s false cs]: replay of the outcomes - a successful Upgrade
    arms, a successful Migrate disarms, nothing else changes it. *)
 Theorem C16_migrate_once : forall c cs d operator au,
-  knd c = KUpgV2 -> wf_cfg c = true ->
+  knd c = KUpgV1 \/ knd c = KUpgV2 -> wf_cfg c = true ->
   snd (step c (run c (init c) cs) (Migrate d operator, au)) =
     has_auth au operator && N.eqb operator (owner c) && armed_after c (init c) false cs.
 Proof. exact migrate_once_explicit. Qed.
@@ -204,7 +214,7 @@ Print Assumptions C16_migrate_once.
 
 (* the flag protocol in ANY state *)
 Theorem C16_migrate_step : forall c s d operator au,
-  knd c = KUpgV2 ->
+  knd c = KUpgV1 \/ knd c = KUpgV2 ->
   exec c s (Migrate d operator, au) =
     if has_auth au operator && N.eqb operator (owner c) && migrating s
     then Ok (set_mig (set_mdata s (Some d)) false) else Fail.
@@ -258,33 +268,64 @@ Example C16_monitor_rejects :
           ; bad_over_cap                 (* mint lifts supply above the cap *)
           ; bad_migrate_twice            (* second migration after one upgrade *)
           ; bad_migrate_without_upgrade
-          ; bad_failed_with_effect ]     (* failing call changes a balance *)
-  = [4; 2; 2; 3; 3; 4; 2; 2; 3; 1; 2]%N.
+          ; bad_failed_with_effect       (* failing call changes a balance *)
+          ; bad_unread_forever           (* a list entry never read again before the trace ends *)
+          ; bad_short_list               (* observation shorter than the universe *)
+          ; bad_ctor_cap'                (* deployed with cap 100, cap getter says 1000 *)
+          ; bad_mux_receiver             (* muxed receiver whose address is not allowed receives *)
+          ; bad_increment_paused         (* examples/pausable: increment while paused *)
+          ; bad_v1_migrate               (* v1 -> v2: migrate without upgrade *)
+          ; bad_negative_cap_deployed    (* constructor must refuse a negative cap *)
+          ; bad_allowance_vanishes ]     (* allowance gone at Advance 0, long before its live_until_ledger *)
+  = [4; 2; 2; 3; 3; 4; 2; 2; 3; 1; 2; 3; 1; 1; 3; 3; 1; 1; 2]%N.
 Proof. vm_compute. reflexivity. Qed.
 
-(* ... and it is the clause of the property text that fails, not only exactness
+(* ... and it is the clause of the property text that fails
    (order: no-effect, paused-blocks, alternation, allow, block, getters-follow-history, cap,
-   migrate, exactness, effects) *)
+   migrate, works-again, effects, shape) *)
 Example C16_clauses_reject :
-  rejected_clauses prefix_trace            = [true; true; true; false; true; true; true; true; false; true] /\
-  rejected_clauses bad_paused_transfer     = [true; false; true; true; true; true; true; true; false; true] /\
-  rejected_clauses bad_double_pause        = [true; true; false; true; true; true; true; true; false; true] /\
-  rejected_clauses bad_block_burn_from     = [true; true; true; true; false; true; true; true; false; true] /\
-  rejected_clauses bad_stale_list          = [true; true; true; true; true; false; true; true; true; true] /\
-  rejected_clauses bad_over_cap            = [true; true; true; true; true; true; false; true; false; true] /\
-  rejected_clauses bad_migrate_twice       = [true; true; true; true; true; true; true; false; false; true] /\
-  rejected_clauses bad_failed_with_effect  = [false; true; true; true; true; true; true; true; true; true] /\
-  rejected_clauses bad_stuck_after_unpause = [true; true; true; true; true; true; true; true; false; true].
-Proof. vm_compute. repeat split. Qed.
+  map rejected_clauses
+    [ prefix_trace; bad_paused_transfer; bad_double_pause; bad_block_burn_from; bad_stale_list; bad_over_cap;
+      bad_migrate_twice; bad_failed_with_effect; bad_stuck_after_unpause; bad_mux_receiver; bad_increment_paused;
+      bad_short_list ]
+  = [ [true; true; true; false; true; true; true; true; true; true; true];
+      [true; false; true; true; true; true; true; true; true; true; true];
+      [true; true; false; true; true; true; true; true; true; true; true];
+      [true; true; true; true; false; true; true; true; true; true; true];
+      [true; true; true; true; true; false; true; true; true; true; true];
+      [true; true; true; true; true; true; false; true; true; true; true];
+      [true; true; true; true; true; true; true; false; true; true; true];
+      [false; true; true; true; true; true; true; true; true; true; true];
+      [true; true; true; true; true; true; true; true; false; true; true];
+      [true; true; true; false; true; true; true; true; true; true; true];
+      [true; false; true; true; true; true; true; true; true; true; true];
+      [true; true; true; true; true; true; true; true; true; true; false] ].
+Proof. vm_compute. reflexivity. Qed.
 
-(* non-vacuity: a non-trivial run (transfer, approve, pause, refused calls, approve while paused,
-   unpause, transfer_from, ledger advance, burn) is well-formed, accepted, and ends in a state
-   where the hypotheses of the theorems hold *)
+(* an implementation that is STRICTER than the text is not a monitor failure (only a disagreement
+   with the model): a block list that also refuses a blocked spender; approve refused while paused;
+   and a constructor that refuses a negative cap is what the monitor expects *)
+Example C16_stricter_is_not_a_violation :
+  map check [strict_spender; strict_approve_paused; ok_negative_cap_refused]
+  = [(4, 0, 0); (2, 0, 0); (0, 0, 0)]%N.
+Proof. vm_compute. reflexivity. Qed.
+
+(* non-vacuity, every contract kind: a non-trivial well-formed run is accepted, with these outcomes *)
 Example C16_nonvacuous :
-  wf_cfg cP = true /\ forallb (wf_call cP) good_calls_paus = true /\
-  check (observe_model cP good_calls_paus) = (0, 0, 0)%N /\
-  map (fun st => snd (fst st)) (model_steps cP (init cP) good_calls_paus)
-    = [true; true; true; false; false; true; true; true; true; true] /\
+  map (fun r => (wf_cfg (fst r) && forallb (wf_call (fst r)) (snd r), check (observe_model (fst r) (snd r)),
+                 map (fun st => snd (fst st)) (model_steps (fst r) (init (fst r)) (snd r)))) good_runs
+  = [ (true, (0, 0, 0)%N, [true; true; true; false; false; true; true; true; true; true]);
+      (true, (0, 0, 0)%N, [true; false; false; true; false; true; true; false; true; true]);
+      (true, (0, 0, 0)%N, [true; true; false; true; true; true]);
+      (true, (0, 0, 0)%N, [true; true; true; true; false; false; true; false; true; true; true; true; true]);
+      (true, (0, 0, 0)%N, [true; true; false; true; true; true]);
+      (true, (0, 0, 0)%N, [true; true; false; false; false; true; true]);
+      (true, (0, 0, 0)%N, [true; true; true; true; true; false]);
+      (true, (0, 0, 0)%N, [true; false; true; false; true; false]);
+      (true, (0, 0, 0)%N, [false; false; true; true; true; false; true]);
+      (true, (0, 0, 0)%N, [false; true; true; true; false]);
+      (true, (0, 0, 0)%N, [false; false; true; true; false; true; false]);
+      (true, (0, 0, 0)%N, [false; true; true; true; false]) ] /\
   supply (run cP (init cP) good_calls_paus) = 960 /\
   pause_events cP (init cP) good_calls_paus = [true; false].
 Proof. vm_compute. repeat split. Qed.
